@@ -6,6 +6,7 @@ Created on Mar 29, 2016
 
 import os
 import time
+from contextlib import contextmanager
 
 from lemoncheesecake.helpers.orderedset import OrderedSet
 from lemoncheesecake.exceptions import LemoncheesecakeException
@@ -38,6 +39,28 @@ class ReportingBackend:
 
     def is_available(self):
         return True
+
+
+@contextmanager
+def atomic_write(filename):
+    """
+    Open a temporary file (located in the same directory as 'filename') for writing and, once its whole
+    content has been written and flushed to disk, atomically rename it to 'filename'.
+    This way 'filename' is never seen empty or partially written, even if the process dies meanwhile.
+    """
+    tmp_filename = filename + ".tmp"
+    try:
+        with open(tmp_filename, "w") as fh:
+            yield fh
+            fh.flush()
+            os.fsync(fh.fileno())
+        os.replace(tmp_filename, filename)
+    except BaseException:
+        try:
+            os.remove(tmp_filename)
+        except OSError:
+            pass
+        raise
 
 
 class FileReportSession(ReportingSession):
